@@ -92,4 +92,20 @@ PROPS = {
         "assumptions": COMMON_ASSUME + ["POSIX semaphore name space modelled with Linux/glibc semantics (same name in one process = one reference-counted sem_t, unlink keeps open objects alive)",
                                         "simulated processes share one address space; kills happen at IPC system calls"],
     },
+    "C07": {
+        "harness": "ipc_shm",
+        "variants": ["T.c11.posix", "A.c11.posix"],
+        "quick_s": 14, "thorough_s": 300,
+        "level": "exploration",
+        "rule": ("one evaluation = one simulated run: 1-3 simulated processes x 1-2 tasks run generated scripts of new(size, RW|RO)/lock/unlock/write/read/sweep/"
+                 "take_ownership/free on two names with sizes from {1,7,64,4096,4097,10000,12288,65536,random} (life-cycle calls serialised, data access under the "
+                 "library lock), or 2-3 processes opening a fresh name concurrently and incrementing a plain in-segment counter under the lock; optionally a SIGKILL "
+                 "of one process before/after its k-th IPC system call and EINTR; then the documented clean-up from a fresh process; mappings are real memfd mappings; "
+                 "distinct = distinct hash of (per-name operation order, event log); non-trivial = more than one context switch or one fired fault"),
+        "probes": ["shm.created", "shm.opened_smaller", "shm.opened_larger", "shm.opened_same_size", "shm.owner_free", "shm.take_ownership", "shm.byte_written", "shm.byte_read",
+                   "shm.kill_happened", "shm.concurrent_creators_ok", "sem.wait_blocked"],
+        "components": {"real": ["pshm-posix.c", "psemaphore-posix.c", "pipc.c", "pcryptohash.c + pcryptohash-sha1.c", "psysclose-unix.c", "perror.c", "pmem.c"], "stub": STUB_KERNEL + STUB_PTHREAD},
+        "assumptions": COMMON_ASSUME + ["shm/sem name spaces and descriptors are simulated with Linux semantics; mappings are real (memfd) between guard pages",
+                                        "simulated processes share one address space; kills happen at IPC system calls"],
+    },
 }
